@@ -196,10 +196,10 @@ def run_requests(reqs, seed, rep, case, with_site=True, fault=None):
                 now = q["t"]
             path = {"o": b"o", "getonly": b"getonly", "missing": b"nope"}[q["kind"]]
             payload = b"%d;%s;%d" % (q.get("outcome", 0), repr(q["delay"]).encode(), q["serial"])
-            peers[q["peer"]].send(S, rc.Msg(q["type"], q["method"], 0x100 + q["serial"], bytes([0xC0, q["serial"] & 0xFF, q["serial"] >> 8]), ((11, path),), payload))
+            peers[q["peer"]].send(S, rc.Msg(q["type"], q["method"], 0x100 + (q["serial"] % 0x7000), bytes([0xC0, q["serial"] & 0xFF, (q["serial"] >> 8) & 0xFF]), ((11, path),), payload))
         await asyncio.sleep(3.0)
         # a later, ordinary request must be answered normally
-        peers[0].send(S, rc.Msg(rc.CON, 1, 0x0FFF, b"\xee\xee", ((11, b"o"),), b"0;0.0;9999"))
+        peers[0].send(S, rc.Msg(rc.CON, 1, 0xFFF0, b"\xee\xee", ((11, b"o"),), b"0;0.0;9999"))
         await asyncio.sleep(1.0)
         box.update(net=net, S=S, peers=[p.addr for p in peers], hlog=hlog, names=names)
         await srv.shutdown()
@@ -232,7 +232,7 @@ def judge(reqs, res, box, rep, case, table, with_site=True, fault=None):
         if fault is not None and q["peer"] == fault["peer"]:
             rep.count("requests_of_failed_peer_not_judged")
             continue
-        tok = bytes([0xC0, q["serial"] & 0xFF, q["serial"] >> 8])
+        tok = bytes([0xC0, q["serial"] & 0xFF, (q["serial"] >> 8) & 0xFF])
         dst = box["peers"][q["peer"]]
         finals = {}
         for e in sends:
